@@ -635,8 +635,9 @@ class C30(HistoryProfile):
 
   def base_weights(self):
     w = dict(gen.DEFAULT_WEIGHTS)
-    w.update({"add_summary": 5, "update_summary": 3, "remove_column": 4, "remove_table": 2,
-              "add_formula_column": 10, "remove_view_things": 3})
+    w.update({"add_summary": 8, "update_summary": 3, "remove_column": 8, "remove_table": 2,
+              "add_formula_column": 10, "remove_view_things": 3, "set_sort": 8, "add_view_section": 6,
+              "rename_column": 8, "add_view": 3})
     return w
 
   def step(self, sim, ev, st):
